@@ -182,9 +182,10 @@ fn ceil_half(x: i128) -> i128 {
 /// * a result that is not representable in `T` is not asserted (any implementation must overflow there);
 /// * halving (centre, half size): floats are generated on even units so the half is exact; for integers the
 ///   property does not fix the rounding, floor and ceiling are both accepted;
-/// * the centre (and the collision vector, which goes through the centres) of an
-///   integer box whose min + max leaves `T` is NOT asserted here - it is the subject of `centre_limits`.
-pub fn arith_checks<D: Dim<N>, T: Sc, const N: usize>(cx: &mut Cx, ua: Ub<N>, ub: Ub<N>, upts: &[[i128; N]], ucuts: &[(usize, i128)], mk: &dyn Fn(i128) -> Option<T>) -> CaseResult {
+/// * the centre of a box whose min + max is not representable is not asserted here (floats: the sum overflows to
+///   infinity in the last binade; integers: subject of the `*-int-centre-near-limits` checks, together with the
+///   collision vector, which goes through the centres).
+pub fn arith_checks<D: Dim<N>, T: Sc, const N: usize>(cx: &mut Cx, ua: Ub<N>, ub: Ub<N>, upts: &[[i128; N]], ucuts: &[(usize, i128)], mk: &dyn Fn(i128) -> Option<T>, cv_needs_centres: bool) -> CaseResult {
     let mkp = |p: &[i128; N]| -> [T; N] { std::array::from_fn(|k| mk(p[k]).expect("generator: coordinate not representable")) };
     let mkb = |x: &Ub<N>| Ob { lo: mkp(&x.lo), hi: mkp(&x.hi) };
     let opt_arr = |v: [i128; N]| -> Option<[T; N]> {
@@ -264,8 +265,10 @@ pub fn arith_checks<D: Dim<N>, T: Sc, const N: usize>(cx: &mut Cx, ua: Ub<N>, ub
         (Some(ea), Some(eb)) => Some((Or { pos: a.lo, ext: ea }, Or { pos: b.lo, ext: eb })),
         _ => None,
     };
-    // collision vector (both centres computable): on every axis one of the two touching translations
-    if opt_arr(sum_of(&ua)).is_some() && opt_arr(sum_of(&ub)).is_some() {
+    // collision vector: on every axis one of the two touching translations. Integers: only when both centres are
+    // computable (see `centre_limits`); floats: a centre that overflows to infinity may decide the side, the result
+    // must still be one of the two translations
+    if !cv_needs_centres || (opt_arr(sum_of(&ua)).is_some() && opt_arr(sum_of(&ub)).is_some()) {
         let cand: [[Option<T>; 2]; N] = std::array::from_fn(|k| [mk(ua.hi[k] - ub.lo[k]), mk(ua.lo[k] - ub.hi[k])]);
         if cand.iter().all(|c| c[0].is_some() && c[1].is_some()) {
             let v = D::collision_vector_with_box(a, b);
